@@ -341,6 +341,11 @@ class Evaluator:
             base = self.ev(target.value, env)
             if isinstance(base, Opaque):
                 return
+            if isinstance(target.slice, ast.Slice):
+                lo = self.ev(target.slice.lower, env) if target.slice.lower else None
+                hi = self.ev(target.slice.upper, env) if target.slice.upper else None
+                base[lo:hi] = self.iterate(value)
+                return
             idx = self.ev(target.slice, env)
             base[idx] = value
         else:
@@ -404,7 +409,12 @@ class Evaluator:
                 for t in st.targets:
                     if isinstance(t, ast.Subscript):
                         base = self.ev(t.value, env)
-                        del base[self.ev(t.slice, env)]
+                        if isinstance(t.slice, ast.Slice):
+                            lo = self.ev(t.slice.lower, env) if t.slice.lower else None
+                            hi = self.ev(t.slice.upper, env) if t.slice.upper else None
+                            del base[lo:hi]
+                        else:
+                            del base[self.ev(t.slice, env)]
                     elif isinstance(t, ast.Name):
                         env.pop(t.id, None)
                     else:
